@@ -52,7 +52,7 @@ let () =
       match run_case capacity (mode = "F") scripts sched with
       | OutCtorCrash -> "CTOR#"
       | OutFuel -> "FUEL"
-      | OutRun (st, evs, steps, d, ub) ->
+      | OutRun (st, evs, steps, d) ->
         let log = if evs = [] then "-" else String.concat " " (List.map show_event evs) in
         let c = measure capacity in
         let count = int_of_n (node_count c) in
@@ -62,6 +62,5 @@ let () =
           | DrainOk l -> show_numbers l
           | DrainCrash l -> show_numbers l ^ "#"
           | DrainFuel -> "FUEL" in
-        Printf.sprintf "%s | sz=%s | nodes=%s | held=%s | drain=%s | steps=%s%s"
-          log (string_of_n st.sh.sz) (String.concat "," (List.map hex_of_n words)) held dr (string_of_n steps)
-          (if ub then " | UB=1" else ""))
+        Printf.sprintf "%s | sz=%s | nodes=%s | held=%s | drain=%s | steps=%s"
+          log (string_of_n st.sh.sz) (String.concat "," (List.map hex_of_n words)) held dr (string_of_n steps))
